@@ -355,8 +355,10 @@ func (e *Env) index(x EIndex) Binding {
 	case *types.Array:
 		return Binding{sel(a.T, i.T, c.sortOf(u.Elem())), u.Elem()}
 	case *types.Map:
+		// Go semantics: the zero value for a key that is not in the map
 		mv := c.mapVal(e.st, u)
-		return Binding{sel(sel(mv, a.T, arrayElemSort(mv.Sort)), i.T, c.sortOf(u.Elem())), u.Elem()}
+		raw := sel(sel(mv, a.T, arrayElemSort(mv.Sort)), i.T, c.sortOf(u.Elem()))
+		return Binding{ite(c.mapHas(e.st, a.T, i.T, u), raw, c.zero(u.Elem())), u.Elem()}
 	case *types.Basic:
 		return Binding{app(SInt, "str_at", a.T, i.T), types.Typ[types.Uint8]}
 	case *types.Pointer:
